@@ -821,6 +821,11 @@ func (x *Exec) builtin(st *State, fr *Frame, b *ssa.Builtin, c *callCtx) {
 func (x *Exec) appendBuiltin(st *State, fr *Frame, c *callCtx) {
 	a0 := x.force(st, c.args[0])
 	a1 := x.force(st, c.args[1])
+	// "count-appends": every append of the unit's own frame is recorded as a call named "append", so that
+	// a backedge assertion can say how many elements an iteration contributed (itercalls("append"))
+	if x.contract != nil && x.contract.Directives["count-appends"] != nil && len(st.frames) > 0 && fr == st.frames[0] {
+		st.rec = append(append([]recordedCall(nil), st.rec...), recordedCall{Name: "append"})
+	}
 	if b0, ok := a0.(VBytes); ok {
 		_ = b0
 		x.finish(st, fr, c, VBytes{Nil: TFalse, B: x.sym.Fresh("bytes.append", SBytes)})
